@@ -82,10 +82,15 @@ Clauses(o, ev, o2, p) ==
 PStep(p, o, ev, o2) ==
     CASE ev.e = "variant" -> [PInit EXCEPT !.prevApp = p.app, !.prevWire = p.wire, !.have = TRUE,
                                            !.prevClose = o.closedAt, !.cur = "trio"]
+      \* (a request first taken up after a failed write or a reset is not compared: whether the reader
+      \*  survives the loss of the write side is a property of the transport, asyncio's dies, trio's need not)
       [] ev.e \in {"app_start", "app_recv", "app_ret", "app_done"} /\ ~o.final ->
-            [p EXCEPT !.app = Put(@, ev.app, Append(Get(p.app, ev.app, <<>>), AppItem(ev)))]
+            IF (o.tfail \/ o.reset) /\ ev.app \notin DOMAIN p.app THEN p
+            ELSE [p EXCEPT !.app = Put(@, ev.app, Append(Get(p.app, ev.app, <<>>), AppItem(ev)))]
+      \* (after a peer reset or a failed write nothing more is compared: what the client-side parser reports
+      \*  at the loss of the transport depends on the fake transport, not on the server)
       [] ev.e = "wire" /\ ~o.final ->
-            IF WireItem(ev) = <<>> THEN p
+            IF WireItem(ev) = <<>> \/ o.reset \/ o.tfail THEN p
             ELSE [p EXCEPT !.wire = Put(@, ev.app, Append(Get(p.wire, ev.app, <<>>), WireItem(ev)))]
       [] OTHER -> p
 
